@@ -9,6 +9,7 @@ let tag_of = function
   | "scope" -> UmlSem.TScope | "doc" -> UmlSem.TDoc | "child" -> UmlSem.TChild | "type" -> UmlSem.TType | "typestring" -> UmlSem.TTypeString
   | "dir" -> UmlSem.TDir | "default" -> UmlSem.TDefault | "mult" -> UmlSem.TMult | "init" -> UmlSem.TInit | "setter" -> UmlSem.TSetter
   | "getter" -> UmlSem.TGetter | "readonly" -> UmlSem.TReadOnly | "stereo" -> UmlSem.TStereo | "from" -> UmlSem.TFrom | "to" -> UmlSem.TTo
+  | "agg" -> UmlSem.TAgg
   | s -> failwith ("tag " ^ s)
 let slot v = match lst v with
   | [k; a; b] when str k = "N" -> UmlSem.SNoise (str a, str b)
@@ -37,7 +38,17 @@ let smember v = match lst v with
   | [k; a] when str k = "attr" -> UmlSem.MAttr (sattr a)
   | [k; i; n; lay] when str k = "lit" -> UmlSem.MLit (str i, str n, layout lay)
   | _ -> failwith "smember"
+let send v = match lst v with
+  | [i; n; cl; mu; agg; vis; ge; se; co; lay] ->
+      { UmlSem.se_id = str i; se_name = oname n; se_class = strs cl; se_mult = str mu; se_agg = oname agg; se_vis = oname vis;
+        se_getter = ob ge; se_setter = ob se; se_const = ob co; se_layout = layout lay }
+  | _ -> failwith "send"
 let selem v = match lst v with
+  | [k; x] when str k = "assoc" -> (match lst x with
+      | [i; n; par; doc; fr; t; lay] ->
+          UmlSem.EAssoc { UmlSem.sx_id = str i; sx_name = oname n; sx_parent = oname par; sx_doc = str doc; sx_from = send fr; sx_to = send t;
+                          sx_layout = layout lay }
+      | _ -> failwith "sassoc")
   | [k; c] when str k = "class" -> (match lst c with
       | [i; n; par; st; ab; doc; ms; lay] ->
           UmlSem.EClass { UmlSem.sc_id = str i; sc_name = str n; sc_parent = oname par; sc_stereos = strs st; sc_abstract = ob ab; sc_doc = str doc;
@@ -63,7 +74,29 @@ let sdiagram v = match lst v with
         sd_refd = List.map sref (lst refs) }
   | _ -> failwith "sdiagram"
 
+(* diagnosis: which shapes / members / referenced elements are outside the domain *)
+let why s =
+  let d = sdiagram s in
+  let bad = ref [] in
+  let note id what ok = if not ok then bad := L [S id; S what] :: !bad in
+  List.iter (fun (_, e) -> match e with
+    | UmlSem.EClass c ->
+        note c.UmlSem.sc_id "class" (UmlSem.class_ok d c);
+        List.iter (fun m -> match m with
+          | UmlSem.MOp o -> note o.UmlSem.so_id "operation" (UmlSem.op_ok d o);
+              List.iter (fun p -> note p.UmlSem.sp_id "parameter" (UmlSem.param_ok d p)) o.UmlSem.so_params
+          | UmlSem.MAttr a -> note a.UmlSem.sa_id "attribute" (UmlSem.attr_ok d a)
+          | UmlSem.MLit (i, _, _) -> note i "literal" (UmlSem.member_ok d m)) c.UmlSem.sc_members
+    | UmlSem.EPackage p -> note p.UmlSem.sk_id "package" (UmlSem.package_ok d p)
+    | UmlSem.EInh i -> note i.UmlSem.si_id "inheritance" (UmlSem.inh_ok d i)
+    | UmlSem.EAssoc x -> note x.UmlSem.sx_id "association" (UmlSem.assoc_ok d x);
+        note x.UmlSem.sx_from.UmlSem.se_id "from-end" (UmlSem.end_ok d true x.UmlSem.sx_from);
+        note x.UmlSem.sx_to.UmlSem.se_id "to-end" (UmlSem.end_ok d false x.UmlSem.sx_to)
+    | UmlSem.EOther _ -> ()) d.UmlSem.sd_shapes;
+  L (List.rev !bad)
+
 let () =
+  register "us_why" (function [s] -> why s | _ -> failwith "arity");
   register "us_ok" (function [s] -> vbool (UmlSem.sdiagram_ok (sdiagram s)) | _ -> failwith "arity");
   register "us_encode" (function [s] -> Cmds_vpp.vdb (UmlSem.encode_project (sdiagram s)) | _ -> failwith "arity");
   register "us_rdiagram" (function [s] -> Cmds_zumlblob.vrdiagram (UmlSem.rdiagram_of (sdiagram s)) | _ -> failwith "arity");
